@@ -323,7 +323,7 @@ func c09FindHelpers(c *Ctx, rule string) *c09Helpers {
 
 func c09R3(c *Ctx) {
 	const R3 = "C09.R3.cascade-guards"
-	c.Expect(R3, 9)
+	c.Expect(R3, 10)
 	h := c09FindHelpers(c, R3)
 	if h == nil {
 		return
@@ -482,6 +482,27 @@ func c09R3(c *Ctx) {
 	}
 	if h.isTagged == nil && !usesInline {
 		c.LostAnchor(R3, dn+": isTagged test (bool function calling resolver.Memory.TagSet, or the same comparison inlined)")
+	}
+	// the work list is processed to the end: the loop that calls the per-node step is left early only with an error
+	for _, g := range h.cascade {
+		for _, l := range Loops(g) {
+			steps := false
+			for _, dc := range CallsTo(g, fnFullName(h.deleteOne)) {
+				steps = steps || c09InLoopRegion(l, dc.(ssa.Instruction))
+			}
+			if !steps || h.deleteOne == g {
+				continue
+			}
+			// with AutoGC off nothing is ever enqueued (see the two …-only-under-AutoGC obligations): leaving on
+			// that edge is leaving with an empty queue
+			_, gcOff := BoolTests(g, c08StoreFieldLoads(g, h.store, "AutoGC"))
+			bad, at := c09LoopEarlyExit(g, l, gcOff)
+			if !bad {
+				at = blockPos(l.Header)
+			}
+			c.Check(R3, dn+"|work-list-processed-to-the-end", at, !bad, ifelse(!bad, "the loop over the delete queue is left without an error only when the queue is empty",
+				"the loop over the delete queue can be left early while Delete reports success: enqueued referrers / dangling nodes are never removed"))
+		}
 	}
 	c09R3Delete(c, R3, h)
 	c09R3Remove(c, R3)
@@ -672,6 +693,27 @@ func c09R3Delete(c *Ctx, R3 string, h *c09Helpers) {
 	}
 	if n == 0 {
 		c.LostAnchor(R3, fn+": Untag of the deleted node's references")
+	}
+	// every reference of the node is examined: the loop that untags is not left early while the step goes on
+	for _, f := range c09ReachableInPkg(d, 2) {
+		if c09IsYieldBody(f) {
+			continue
+		}
+		for _, it := range c09ItersIn(f) {
+			untags := false
+			for _, call := range c09BodyCalls(it) {
+				untags = untags || CalleeName(call) == c09nUntag
+			}
+			if !untags {
+				continue
+			}
+			bad, at := c09IterEarlyExit(it)
+			if !bad {
+				at = it.Stmt.Pos()
+			}
+			c.Check(R3, fn+"|untag-loop-runs-to-the-end", at, !bad, ifelse(!bad, "the loop that untags the references of the deleted node is left without an error only when its collection is exhausted",
+				"the loop that untags the references of the deleted node can be left early: a second tag of the node survives its deletion and resolves to a blob that no longer exists"))
+		}
 	}
 }
 
@@ -1811,7 +1853,7 @@ func c09LenThreshold(v ssa.Value, set map[ssa.Value]bool) (int64, bool) {
 
 func c09R4(c *Ctx) {
 	const R4 = "C09.R4.sweep-guard"
-	c.Expect(R4, 8)
+	c.Expect(R4, 10)
 	h := c09FindHelpers(c, R4)
 	if h == nil {
 		return
@@ -1899,15 +1941,33 @@ func c09R4(c *Ctx) {
 				c.Check(R4, gn+"|reachable-set-after-gcIndex"+sfx, dsPos, ok, ifelse(ok, "DigestSet() is taken after the index was rebuilt successfully", "the reachable set is computed before (or without) a successful rebuild of the index: the sweep uses stale reachability"))
 				d := x.Call.Args[1]
 				// valid digest name
-				var valid []Edge
+				var valid, invalid []Edge
 				for _, vc := range CallsTo(T, "(digest.Digest).Validate") {
 					if c09SameKey(vc.Common().Args[0], d) {
-						ne, _, _ := NilTests(T, Aliases(vc.Value()))
+						ne, nn, _ := NilTests(T, Aliases(vc.Value()))
 						valid = append(valid, ne...)
+						invalid = append(invalid, nn...)
 					}
 				}
 				ok = c09Guarded(atT, valid)
 				c.Check(R4, gn+"|remove-only-valid-digest-names"+sfx, rm.Pos(), ok, ifelse(ok, "entries whose name is not a valid digest are skipped", "a directory entry whose name is not a valid digest can be removed"))
+				// completeness per entry: an entry found unreachable is not passed over — from the "not in the reachable set"
+				// edge the next entry is reached only through the removal (or because its name is no valid digest)
+				for _, it := range c09ItersIn(T) {
+					if !it.InBody(atT) || (it.Loop == nil && it.Fn != T) {
+						continue
+					}
+					ct := newCut().Instr(atT).Edges(invalid...)
+					okC := true
+					for _, e := range notIn {
+						if it.InBody(e.From.Instrs[len(e.From.Instrs)-1]) && it.ContinuesWithout(e.To, 0, ct) {
+							okC = false
+						}
+					}
+					c.Check(R4, gn+"|every-unreachable-blob-removed"+sfx, rm.Pos(), okC, ifelse(okC, "an entry whose digest is not in the reachable set reaches the next entry only through the removal",
+						"an entry whose digest is not in the reachable set can be passed over without being removed: garbage survives although GC reports success"))
+					break
+				}
 				// d = NewDigestFromEncoded(alg, name): name flows into the removed path, alg is a known algorithm
 				var mk *ssa.Call
 				for _, r := range Roots(d) {
@@ -2030,79 +2090,137 @@ func c09R4(c *Ctx) {
 // report success and can be reached once an iteration has begun lies behind the
 // loop's own exit (the collection is exhausted).  `return nil` / `break` in the
 // body would end the sweep at the first skipped entry and GC would report
-// success with unreachable blobs left behind.  Range-over-func loops and
-// callback walks have no such loop and are not judged here.
+// success with unreachable blobs left behind.  The loop may be a classic loop,
+// a range-over-func loop (body and in-module producer judged by
+// c09IterEarlyExit) or a directory walk with a callback (WalkDir / Walk): the
+// callback never answers SkipAll and answers SkipDir only for a directory.
 func c09R4SweepCompletes(c *Ctx, R4 string, h *c09Helpers) {
 	gn := FnName(h.gc)
+	isRemoval := func(n string) bool { return n == "os.Remove" || n == "os.RemoveAll" || n == "(*os.Root).Remove" }
 	removes := map[*ssa.Function]bool{}
 	for _, g := range h.sweepHosts {
 		removes[g] = true
 	}
-	below := c09ReachableInPkg(h.gc, 3)
+	below := c09ReachableInPkg(h.gc, 4)
+	for _, g := range below {
+		if len(Calls(g, isRemoval)) > 0 && g != h.gcIndex {
+			removes[g] = true
+		}
+	}
 	for changed := true; changed; {
 		changed = false
 		for _, g := range below {
-			if removes[g] || g == h.gcIndex || c09IsYieldBody(g) {
+			if removes[g] || g == h.gcIndex {
 				continue
 			}
-			for _, call := range Calls(g, func(string) bool { return true }) {
-				if cal := c09Callee(call); cal != nil && removes[cal] {
-					removes[g], changed = true, true
+			AllInstrs(g, func(in ssa.Instruction) {
+				switch x := in.(type) {
+				case *ssa.MakeClosure:
+					if removes[x.Fn.(*ssa.Function)] {
+						removes[g], changed = true, true
+					}
+				case ssa.CallInstruction:
+					if cal := c09Callee(x); cal != nil && removes[cal] {
+						removes[g], changed = true, true
+					}
 				}
-			}
+			})
 		}
 	}
-	nLoops := 0
-	for _, g := range below {
-		if !removes[g] || c09IsYieldBody(g) {
-			continue
+	sweepsIn := func(calls []ssa.CallInstruction) bool {
+		for _, call := range calls {
+			if cal := c09Callee(call); isRemoval(CalleeName(call)) || (cal != nil && removes[cal]) {
+				return true
+			}
 		}
-		ei := ErrResultIndex(g.Signature)
-		if ei < 0 {
+		return false
+	}
+	nLoops := 0
+	report := func(bad bool, at token.Pos) {
+		nLoops++
+		sfx := ""
+		if nLoops > 1 {
+			sfx = fmt.Sprintf("#%d", nLoops)
+		}
+		c.Check(R4, gn+"|sweep-runs-to-the-end"+sfx, at, !bad, ifelse(!bad, "once begun, the sweep is left without an error only when its collection is exhausted",
+			"the sweep can be left early while GC still reports success: the entries after the first skipped one are never examined and unreachable blobs stay in storage"))
+	}
+	for _, g := range below {
+		if !removes[g] {
 			continue
 		}
 		for _, l := range Loops(g) {
-			sweeps := false
+			var calls []ssa.CallInstruction
 			for _, call := range Calls(g, func(string) bool { return true }) {
-				if !l.Contains(call.(ssa.Instruction)) {
-					continue
-				}
-				n := CalleeName(call)
-				if cal := c09Callee(call); n == "os.Remove" || n == "os.RemoveAll" || n == "(*os.Root).Remove" || (cal != nil && removes[cal]) {
-					sweeps = true
+				if c09InLoopRegion(l, call.(ssa.Instruction)) {
+					calls = append(calls, call)
 				}
 			}
-			if !sweeps {
+			if !sweepsIn(calls) {
 				continue
 			}
-			ct := newCut()
-			for _, s := range l.Header.Succs {
-				if !l.Blocks[s] {
-					ct.Edges(Edge{l.Header, s})
-				}
+			bad, at := c09LoopEarlyExit(g, l, nil)
+			if !bad {
+				at = blockPos(l.Header)
 			}
-			var start *ssa.BasicBlock
-			for _, s := range l.Header.Succs {
-				if l.Blocks[s] {
-					start = s
-				}
-			}
-			if start == nil || len(ct.edges) == 0 {
+			report(bad, at)
+		}
+		if c09IsYieldBody(g) {
+			continue
+		}
+		for _, it := range c09ItersIn(g) {
+			if it.Loop != nil || !sweepsIn(c09BodyCalls(it)) {
 				continue
 			}
-			ok, at := true, blockPos(l.Header)
-			for _, a := range RetAtoms(g, ei) {
-				if c09MayBeNilAtom(g, a) && c09AtomReachableFrom(start, 0, a, ct) {
-					ok, at = false, a.Ret.Pos()
+			bad, at := c09IterEarlyExit(it)
+			if !bad {
+				at = it.Stmt.Pos()
+			}
+			report(bad, at)
+		}
+		// directory walk with a callback
+		for _, wc := range Calls(g, func(n string) bool {
+			return n == "path/filepath.WalkDir" || n == "io/fs.WalkDir" || n == "path/filepath.Walk"
+		}) {
+			args := wc.Common().Args
+			var cb *ssa.Function
+			switch u := c09Resolved(args[len(args)-1]).(type) {
+			case *ssa.MakeClosure:
+				cb = u.Fn.(*ssa.Function)
+			case *ssa.Function:
+				cb = u
+			}
+			if cb == nil || !removes[cb] || len(cb.Params) < 2 {
+				continue
+			}
+			isGlobal := func(v ssa.Value, name string) bool {
+				ld, ok := v.(*ssa.UnOp)
+				if !ok || ld.Op != token.MUL {
+					return false
+				}
+				gl, ok := ld.X.(*ssa.Global)
+				return ok && gl.Pkg != nil && gl.Pkg.Pkg.Path() == "io/fs" && gl.Name() == name
+			}
+			entry := Aliases(cb.Params[len(cb.Params)-2]) // the DirEntry / FileInfo of the visited path
+			var isDir []Edge
+			for _, i := range Ifs(cb) {
+				cond, t, _ := ifEdges(i)
+				if x, ok := cond.(*ssa.Call); ok && x.Call.IsInvoke() && x.Call.Method.Name() == "IsDir" && entry[x.Call.Value] {
+					isDir = append(isDir, t)
 				}
 			}
-			nLoops++
-			sfx := ""
-			if nLoops > 1 {
-				sfx = fmt.Sprintf("#%d", nLoops)
+			bad, at := false, wc.Pos()
+			for _, a := range RetAtoms(cb, 0) {
+				switch {
+				case isGlobal(a.Val, "SkipAll"):
+					bad, at = true, a.Ret.Pos()
+				case isGlobal(a.Val, "SkipDir"):
+					if !AtomMustPass(a, newCut().Edges(isDir...)) {
+						bad, at = true, a.Ret.Pos()
+					}
+				}
 			}
-			c.Check(R4, gn+"|sweep-runs-to-the-end"+sfx, at, ok, ifelse(ok, "once begun, the sweep loop is left without an error only when its collection is exhausted",
-				"the sweep loop can be left early with a nil error: the entries after the first skipped one are never examined, GC reports success and unreachable blobs stay in storage"))
+			report(bad, at)
 		}
 	}
 }
@@ -2517,6 +2635,14 @@ func c09R4GcIndex(c *Ctx, R4 string, h *c09Helpers) {
 			if p.l != nil {
 				lpos = blockPos(p.l.Header)
 			}
+			if len(tagRef) > 0 || len(tagDg) > 0 {
+				bad, at := c09IterEarlyExit(p.it)
+				if !bad {
+					at = lpos
+				}
+				c.Check(R4, fn+"|"+ifelse(len(tagRef) > 0, "pass1", "pass2")+"-runs-to-the-end", at, !bad, ifelse(!bad, "the pass over the old tag map is left without an error only when the map is exhausted",
+					"the pass over the old tag map can be left early while the rebuild reports success: the entries not visited lose their tags / become garbage"))
+			}
 			if len(tagRef) > 0 {
 				pass1++
 				starts := p.starts(-1)
@@ -2573,6 +2699,19 @@ func c09R4GcIndex(c *Ctx, R4 string, h *c09Helpers) {
 				c.Check(R4, fn+"|pass2-keeps-only-referrers-of-kept-nodes", lpos, ok, ifelse(ok,
 					"an untagged entry is re-tagged/re-indexed only on the newGraph.Exists(subject) edge",
 					"an untagged entry is kept without its subject chain reaching the rebuilt graph: garbage survives GC"))
+				// … and every such entry is kept: once a subject of the chain exists in the rebuilt graph, the entry
+				// does not reach the next iteration without having been re-tagged and re-indexed
+				if ok && len(exT) > 0 && len(idx) > 0 {
+					okK := true
+					for _, e := range exT {
+						if p.it.InBody(e.From.Instrs[len(e.From.Instrs)-1]) && (p.it.ContinuesWithout(e.To, 0, newCut().Instr(tagDg...)) || p.it.ContinuesWithout(e.To, 0, newCut().Instr(idx...))) {
+							okK = false
+						}
+					}
+					c.Check(R4, fn+"|pass2-keeps-every-referrer-of-kept-nodes", lpos, okK, ifelse(okK,
+						"an untagged entry whose subject chain reaches the rebuilt graph is re-tagged and re-indexed before the pass moves on",
+						"an untagged entry whose subject chain reaches the rebuilt graph can be skipped: a referrer of reachable content is treated as garbage and its blob is swept"))
+				}
 			}
 		}
 	}
@@ -2809,6 +2948,23 @@ var c09Mutants = []Mutant{
 		Old:    "\ts.sync.Lock()\n\tdefer s.sync.Unlock()\n\n\tdeleteQueue",
 		New:    "\ts.sync.RLock()\n\tdefer s.sync.RUnlock()\n\n\tdeleteQueue",
 		Expect: "C09.R5.exclusive|(*~/content/oci.Store).Delete"},
+	// coverage review (all keep the repository's tests green)
+	{Name: "delete-untags-first-reference-only", File: "content/oci/oci.go",
+		Old: "\t\t\tuntagged = true\n", New: "\t\t\tuntagged = true\n\t\t\tbreak\n",
+		Expect: "C09.R3.cascade-guards|(*~/content/oci.Store).delete|untag-loop-runs-to-the-end"},
+	{Name: "delete-gives-up-on-long-queue", File: "content/oci/oci.go",
+		Old: "\t\thead := deleteQueue[0]\n", New: "\t\tif len(deleteQueue) > 4096 {\n\t\t\tbreak // give up on pathological graphs\n\t\t}\n\t\thead := deleteQueue[0]\n",
+		Expect: "C09.R3.cascade-guards|(*~/content/oci.Store).Delete|work-list-processed-to-the-end"},
+	{Name: "sweep-spares-unreachable-symlinks", File: "content/oci/oci.go",
+		Old: "\t\t\tif !reachableNodes.Contains(blobDigest) {", New: "\t\t\tif !reachableNodes.Contains(blobDigest) && digestEntry.Type()&os.ModeSymlink == 0 {",
+		Expect: "C09.R4.sweep-guard|(*~/content/oci.Store).GC|every-unreachable-blob-removed"},
+	{Name: "gcindex-drops-annotated-referrers", File: "content/oci/oci.go",
+		Old: "\t\t\tif graph.Exists(*subject) {", New: "\t\t\tif graph.Exists(*subject) {\n\t\t\t\tif len(desc.Annotations) > 0 {\n\t\t\t\t\tbreak\n\t\t\t\t}",
+		Expect: "C09.R4.sweep-guard|(*~/content/oci.Store).gcIndex|pass2-keeps-every-referrer-of-kept-nodes"},
+	{Name: "gcindex-pass1-breaks-on-cancel", File: "content/oci/oci.go",
+		Old:    "\tfor ref, desc := range refMap {\n\t\tif ref == desc.Digest.String() {\n\t\t\tcontinue\n\t\t}\n",
+		New:    "\tfor ref, desc := range refMap {\n\t\tif isContextDone(ctx) != nil {\n\t\t\tbreak\n\t\t}\n\t\tif ref == desc.Digest.String() {\n\t\t\tcontinue\n\t\t}\n",
+		Expect: "C09.R4.sweep-guard|(*~/content/oci.Store).gcIndex|pass1-runs-to-the-end"},
 	// wave 5: conditions that the carrier / extracted forms must keep too
 	{Name: "tag-stale-drop-after-insert", File: "internal/resolver/memory.go",
 		Old:    "\tif old, ok := m.index[reference]; ok && old.Digest != desc.Digest {\n\t\t// the reference is moved from another digest, drop the stale entry\n\t\tif oldTagSet, ok := m.tags[old.Digest]; ok {\n\t\t\toldTagSet.Delete(reference)\n\t\t\tif len(oldTagSet) == 0 {\n\t\t\t\tdelete(m.tags, old.Digest)\n\t\t\t}\n\t\t}\n\t}\n\tm.index[reference] = desc\n\ttagSet, ok := m.tags[desc.Digest]\n\tif !ok {\n\t\ttagSet = set.New[string]()\n\t\tm.tags[desc.Digest] = tagSet\n\t}\n\ttagSet.Add(reference)\n",
